@@ -92,4 +92,47 @@ def gen(rng, tier):
         reqs.append("C17 sign.ser %s" % s)
     for sb in list(range(-130, 131)) + [255, 256, 65535, -65536, (1 << 31), -(1 << 31), (1 << 63) - 1, -(1 << 63)]:
         reqs.append("C17 sign.de %d" % sb)
+    # typed sign tokens: every integer kind of serde's data model at its own boundaries (MAX/MIN of the kind are the
+    # values a wrapping cast turns into -1 / 0 / 1), 128-bit kinds and non-integer kinds (always rejected)  (C17-s1)
+    kinds = {"i8": (-(1 << 7), (1 << 7) - 1), "i16": (-(1 << 15), (1 << 15) - 1), "i32": (-(1 << 31), (1 << 31) - 1),
+             "i64": (-(1 << 63), (1 << 63) - 1), "i128": (-(1 << 127), (1 << 127) - 1), "u8": (0, (1 << 8) - 1),
+             "u16": (0, (1 << 16) - 1), "u32": (0, (1 << 32) - 1), "u64": (0, (1 << 64) - 1), "u128": (0, (1 << 128) - 1)}
+    for k, (lo, hi) in kinds.items():
+        vals = {lo, lo + 1, lo + 2, hi, hi - 1, hi - 2, -1, 0, 1, 2, -2, hi // 2, hi // 2 + 1, hi // 2 + 2, rng.randrange(lo, hi + 1)}
+        for sh in (8, 16, 32, 64):
+            vals |= {(1 << sh) - 1, 1 << sh, (1 << sh) + 1, -(1 << sh), -(1 << sh) + 1, -(1 << sh) - 1, (1 << (sh - 1)), (1 << (sh - 1)) - 1}
+        for v in sorted(x for x in vals if lo <= x <= hi):
+            reqs.append("C17 sign.de_t %s:%d" % (k, v))
+            for ws in ([], [5], [0, 7, 0]):
+                reqs.append("C17 i.de_t %s:%d %s" % (k, v, wwords(ws)))
+    for k in ("bool", "f32", "f64", "char", "str", "bytes", "unit", "none", "seq"):
+        for v in (-1, 0, 1):
+            reqs.append("C17 sign.de_t %s:%d" % (k, v))
+            reqs.append("C17 i.de_t %s:%d %s" % (k, v, wwords([5])))
+    # typed element tokens: each u32 digit delivered as any integer kind; values at the u32 boundary for the wider
+    # kinds (2^32 - 1 accepted, 2^32 / negative / 128-bit / non-integer rejected), mixed kinds in one sequence
+    ik = ["u8", "u16", "u32", "u64", "i8", "i16", "i32", "i64"]
+    def fit(k, v):
+        lo, hi = kinds[k]
+        return lo <= v <= hi
+    for _ in range(120 if tier != "thorough" else 600):
+        n = rng.choice([0, 1, 1, 2, 3, 4, 5, 9])
+        toks = []
+        for j in range(n):
+            k = rng.choice(ik)
+            lo, hi = kinds[k]
+            v = rng.choice([0, 1, hi, min(hi, W - 1), rng.randrange(0, min(hi, W - 1) + 1), rng.randrange(0, hi + 1)])
+            toks.append((k, v))
+        mode = rng.randrange(6)
+        if n and mode == 0:
+            j = rng.randrange(n); toks[j] = (rng.choice(["u64", "i64"]), rng.choice([W, W + 1, (1 << 63) - 1, W * 2 + 5]))
+        elif n and mode == 1:
+            j = rng.randrange(n); toks[j] = (rng.choice(["i8", "i16", "i32", "i64"]), rng.choice([-1, -2, -128]))
+        elif n and mode == 2:
+            j = rng.randrange(n); toks[j] = (rng.choice(["u128", "i128", "bool", "f64", "str", "unit", "none", "char", "bytes"]), rng.choice([0, 1, 5]))
+        elif n and mode == 3:
+            j = rng.randrange(n); toks[j] = ("u64", (1 << 64) - 1 - rng.randrange(2))
+        l = ",".join("%s:%d" % t for t in toks) if toks else "."
+        h = rng.choice(["", "", " none", " %d" % n, " 0", " %d" % (n + 7)])
+        reqs.append("C17 u.de_tl %s%s" % (l, h))
     return reqs
